@@ -74,8 +74,9 @@ class Texts:
             for node in tree.body:
                 if isinstance(node, ast.Import):
                     for a in node.names:
-                        bound[a.asname or a.name.split(".")[0]] = (
-                            a.name if a.asname is None and "." not in a.name else None)
+                        # rope: "import a.b" binds a to ImportedModule("a"); "import a.b as c" binds c to "a.b"
+                        first = a.name.split(".")[0]
+                        bound[a.asname or first] = first if a.asname is None else None
                 elif isinstance(node, (ast.FunctionDef, ast.ClassDef)):
                     bound[node.name] = None
                 elif isinstance(node, ast.Assign):
@@ -88,7 +89,7 @@ class Texts:
             for nm, mod in bound.items():
                 if mod is not None and mod.startswith("zm") and mod[2:].isdigit():
                     imports.append(int(mod[2:]))
-        return (self.ids[text], ok, tuple(sorted(imports)))
+        return (self.ids[text], ok, tuple(sorted(imports)), len(text.encode("utf-8")))
 
 
 def g_path(p):
@@ -96,11 +97,11 @@ def g_path(p):
 
 
 def g_content(c):
-    return "(Content %s %s %s)" % (g_N(c[0]), g_bool(c[1]), g_list([g_N(n) for n in c[2]]))
+    return "(Content %s %s %s %s)" % (g_N(c[0]), g_bool(c[1]), g_list([g_N(n) for n in c[2]]), g_N(c[3]))
 
 
-def g_node(n):
-    return "Dir" if n is None else "(File %s)" % g_content(n)
+def g_node(n, mt):
+    return "(Dir %s)" % g_N(mt) if n is None else "(File %s %s)" % (g_content(n), g_N(mt))
 
 
 def g_parsed(v):
@@ -110,19 +111,23 @@ def g_parsed(v):
 
 
 def g_state(st):
-    d = g_list(["(%s, %s)" % (g_path(p), g_node(n)) for p, n in sorted(st["disk"].items())])
+    # modification times are abstracted to their ranks (1, 2, ...); the model's clock is the next one
+    times = sorted(set(st["mtimes"].values()) | set(w[0] for w in st["watched"].values() if w is not None))
+    rank = {t: i + 1 for i, t in enumerate(times)}
+    d = g_list(["(%s, %s)" % (g_path(p), g_node(n, rank[st["mtimes"][p]])) for p, n in sorted(st["disk"].items())])
     m = g_list(["(%s, %s)" % (g_path(p), g_parsed(v)) for p, v in sorted(st["mods"].items())])
     c = g_list(["((%s, %s), %s)" % (g_path(k[0]), g_N(k[1]), g_path(t)) for k, t in sorted(st["cells"].items())])
     f = g_opt(None if st["flist"] is None else g_list([g_path(p) for p in sorted(st["flist"])]))
-    w = g_list(["(%s, %s)" % (g_path(p), x) for p, x in sorted(st["watched"].items())])
-    cfg = "(Config %s %s %s)" % (g_bool(st["soa"]), g_bool(VARIANT[0]), g_bool(VARIANT[1]))
-    return "(mk %s %s %s %s %s %s)" % (d, m, c, f, w, cfg)
+    w = g_list(["(%s, %s)" % (g_path(p), g_opt(None if x is None else "(%s, %s)" % (g_N(rank[x[0]]), g_N(x[1]))))
+                for p, x in sorted(st["watched"].items())])
+    cfg = "(Config %s %s %s true)" % (g_bool(st["soa"]), g_bool(VARIANT[0]), g_bool(VARIANT[1]))
+    return "(mk %s %s %s %s %s %s %s)" % (d, m, c, f, w, cfg, g_N(len(times) + 1))
 
 
 def g_xop(x):
     k = x[0]
     if k == "write":
-        return "(XWrite %s %s)" % (g_path(x[1]), g_content(x[2]))
+        return "(XWrite %s %s %s)" % (g_path(x[1]), g_content(x[2]), g_bool(len(x) > 3 and x[3]))
     if k == "create":
         return "(XCreate %s %s)" % (g_path(x[1]), g_bool(x[2]))
     if k == "remove":
@@ -173,6 +178,16 @@ def reference_indicator(real_path):
 
 
 # ----------------------------------------------------------------------------- abstraction of a project
+def read_mtimes(root):
+    res = {}
+    for dp, dns, fns in os.walk(root):
+        rel = os.path.relpath(dp, root)
+        base = () if rel == "." else tuple(seg_of(x) for x in rel.split(os.sep))
+        for nm in dns + fns:
+            res[base + (seg_of(nm),)] = os.stat(os.path.join(dp, nm)).st_mtime
+    return res
+
+
 def read_tree(root, texts):
     disk = {}
     for dp, dns, fns in os.walk(root):
@@ -213,6 +228,7 @@ def abstract(project, texts, soa):
     from rope.base.resources import File, Folder
     st = {"soa": bool(soa)}
     st["disk"] = read_tree(project.address, texts)
+    st["mtimes"] = read_mtimes(project.address)
     mods, cells = {}, {}
     mm = project.pycore.module_cache.module_map
     for res, pm in mm.items():
@@ -244,12 +260,17 @@ def abstract(project, texts, soa):
     for res, stored in project.pycore.observer.resources.items():
         p = path_of(res.path)
         assert (p == ()) or (isinstance(res, Folder) == (p[-1] % 4 == 0)), res
+        # the stored indicator must be the pair (mtime, size) of rope's stated design; the size of a folder is
+        # abstracted to 0 (unchanged) / 1 (it differs from the folder's current size)
         if stored is None:
-            watched[p] = "WNone"
-        elif res.exists() and reference_indicator(res.real_path) == stored:
-            watched[p] = "WCur"
+            watched[p] = None
+        elif not (isinstance(stored, tuple) and len(stored) == 2):
+            watched[p] = (float(stored[0] if isinstance(stored, tuple) else stored), 999999999)
+        elif isinstance(res, Folder):
+            same = (not res.exists()) or os.stat(res.real_path).st_size == stored[1]
+            watched[p] = (stored[0], 0 if same else 1)
         else:
-            watched[p] = "WStale"
+            watched[p] = (stored[0], stored[1])
     st["watched"] = watched
     return st
 
